@@ -100,6 +100,18 @@ def same(a, b, kind=None):
     return a == b
 
 
+def needs_conversion(rep, exp):
+    """Non-trivial representation: storing it verbatim would be wrong."""
+    if exp is SKIP:
+        return False
+    if type(rep) is not type(exp):
+        return True
+    try:
+        return not bool(np.all(rep == exp))
+    except Exception:
+        return True
+
+
 def all_keys():
     """(section, key, kind) for every key of the metadata tables."""
     from dclab import definitions as dfn
@@ -157,6 +169,7 @@ def _memory_case(args):
     keys = all_keys()
     out = []
     cnt = 0
+    nt = 0
     for ki in range(chunk, len(keys), nchunks):
         sec, key, kind = keys[ki]
         for rep, exp in reps_for(kind):
@@ -166,9 +179,10 @@ def _memory_case(args):
                         "rep": rname(rep), "route": route}
                 tags = {"type": kind, "rep": type(rep).__name__,
                         "route": "memory"}
-                cnt += 1
                 if exp is SKIP:
                     continue
+                cnt += 1
+                nt += needs_conversion(rep, exp)
                 try:
                     cfg, w = _route_set(route, sec, key, rep)
                     got = cfg[sec].get(key, None)
@@ -190,7 +204,7 @@ def _memory_case(args):
                         f"[{sec}] {key} = {rname(rep)} via {route}: stored "
                         f"{got!r} ({type(got).__name__}), documented type "
                         f"{kind} -> {exp!r}", tags))
-    return cnt, out
+    return cnt, out, nt
 
 
 def _reject_case(args):
@@ -339,6 +353,7 @@ def _file_case(args):
     from dclab import definitions as dfn
     out = []
     cnt = 0
+    nt = 0
     keys = all_keys()
     for ki in range(chunk, len(keys), nchunks):
         sec, key, kind = keys[ki]
@@ -349,6 +364,7 @@ def _file_case(args):
             # -- configuration file (save / load) --
             if sec != "user":
                 cnt += 1
+                nt += needs_conversion(rep, exp)
                 case = {"kind": "cfgfile", "sec": sec, "key": key,
                         "rep": rname(rep)}
                 p = scratch / f"c11_{os.getpid()}.cfg"
@@ -392,6 +408,7 @@ def _file_case(args):
             if (sec in dfn.CFG_METADATA and sec != "fmt_tdms") \
                     or sec == "user":
                 cnt += 1
+                nt += needs_conversion(rep, exp)
                 case = {"kind": "hdf5", "sec": sec, "key": key,
                         "rep": rname(rep)}
                 p = scratch / f"c11_{os.getpid()}.rtdc"
@@ -440,7 +457,7 @@ def _file_case(args):
                 for q in (p, p2, p3):
                     if q.exists():
                         q.unlink()
-    return cnt, out
+    return cnt, out, nt
 
 
 def _handwritten_case(args):
@@ -450,6 +467,7 @@ def _handwritten_case(args):
     from dclab.rtdc_dataset.config import Configuration
     out = []
     cnt = 0
+    nt = 0
     keys = [k for k in all_keys() if k[0] not in ("user", "fmt_tdms")
             and k[2] in ("str", "lcstr", "fint", "float", "fbool")]
     textreps = {
@@ -469,6 +487,8 @@ def _handwritten_case(args):
                                  (sec.upper(), key.upper()),
                                  (sec, key.title())):
                 cnt += 1
+                nt += needs_conversion(text, exp) or sname != sec \
+                    or kname != key
                 case = {"kind": "handwritten", "sec": sname, "key": kname,
                         "text": text}
                 tags = {"type": kind, "route": "handwritten",
@@ -494,7 +514,7 @@ def _handwritten_case(args):
                         dict(tags, exc=type(e).__name__)))
     if p.exists():
         p.unlink()
-    return cnt, out
+    return cnt, out, nt
 
 
 def run(ctx):
@@ -507,13 +527,19 @@ def run(ctx):
                                         for c in range(nch)])
     viols = []
     cnt = 0
-    for n, vs in res:
-        cnt += n
-        viols.extend(vs)
-    cov = {"evaluations": cnt, "distinct_nontrivial": cnt,
+    nontriv = 0
+    for r in res:
+        cnt += r[0]
+        viols.extend(r[1])
+        # reject / registry cases are all non-trivial (a value or key that
+        # must be refused, a registry change between uses)
+        nontriv += r[2] if len(r) > 2 else r[0]
+    cov = {"evaluations": cnt, "distinct_nontrivial": nontriv,
            "keys": len(all_keys()),
            "rule": "one case = (section, key, value representation, "
-                   "route); keys: every entry of dclab.definitions."
+                   "route); non-trivial = the representation differs in "
+                   "type or value from the documented normal form, or the "
+                   "key/section is spelled in another case (counted); keys: every entry of dclab.definitions."
                    "config_funcs plus online_filter pattern keys, filtering "
                    "range keys and user keys; representations per "
                    "documented type (str, bytes, int, float, bool, numpy "
@@ -556,8 +582,8 @@ def replay(case, ctx):
     if case["kind"] == "reject":
         _, vs = _reject_case(())
     elif case["kind"] == "memory":
-        _, vs = _memory_case((idx[0], len(keys)))
+        vs = _memory_case((idx[0], len(keys)))[1]
     else:
-        _, vs = _file_case((idx[0], len(keys), ctx.scratch))
+        vs = _file_case((idx[0], len(keys), ctx.scratch))[1]
     return [v for v in vs if all(v["case"].get(k) == case.get(k)
                                  for k in case)]
